@@ -259,6 +259,10 @@ class Roots:
             if gpo and v[1] in gpo and v[2] < len(gpo[v[1]]):
                 return self.roots(gpo[v[1]][v[2]], path)        # a thin per-variant handler: its parameter is the dispatcher's argument
             fn = self.P.fn(v[1])
+            if fn is not None and fn.body is not None and isinstance(v[2], int) and v[2] >= fn.body.arg_count:
+                for (i_, k_, nm_, t_) in self.P.bundle_layout(fn):
+                    if i_ == v[2]:
+                        return self.roots(proj(("param", v[1], k_), ("f", nm_)), path)      # synthetic parameter = field of the struct parameter
             cs_args = context_param_args(self.P, fn, v[2]) if fn is not None else None
             if cs_args:
                 # a parameter of a contract-local bundle type (`ctx: &QueryCtx`, `cfg: &Config`): what its call sites pass
@@ -288,6 +292,14 @@ class Roots:
             if is_try_branch(callee):
                 return self.roots(v[4][0], path)
             ti = transparent_arg(callee)
+            if ti is not None and isinstance(callee, str) and last_seg(callee) == "from":
+                # a conversion that lands in a workspace impl building its target field by field
+                # (`impl From<(Uint128, Uint128, Uint128)> for SimulationResponse`) is that constructor, not a re-wrapping
+                cf_ = self.P.fn(callee)
+                if cf_ is not None and cf_.body is not None and _plain_constructor(self.P, cf_):
+                    hv = inline_call(self.P, v)
+                    if hv is not None:
+                        return self.roots(hv, path)
             if ti is None:
                 ti = self.extra(callee)
             if ti is not None and ti < len(v[4]):
@@ -1175,6 +1187,12 @@ def param_index_of_type(fn, ty_pat):
     if not hits:
         # the same parameter taken by reference (`&Asset`, `&[Uint128; 2]`): references are transparent in the value graph
         hits = [i - 1 for i in range(1, fn.body.arg_count + 1) if fn.body.locals[i]["ty"].startswith("&") and re.search(ty_pat, strip_ty(fn.body.locals[i]["ty"]))]
+    if not hits and CURRENT_P[0] is not None:
+        # a field of a private parameter struct (`params: SwapParams { sender, offer_asset, .. }`): a synthetic parameter
+        lay = CURRENT_P[0].bundle_layout(fn)
+        bh = [i_ for (i_, k_, nm_, t_) in lay if re.search(ty_pat, t_) or (t_.startswith("&") and re.search(ty_pat, strip_ty(t_)))]
+        if len(bh) == 1:
+            return bh[0]
     if not hits and re.search(r"Addr", ty_pat) and not re.search(r"Canonical|MessageInfo|Env", ty_pat):
         # an address taken as text and validated by the function itself (`to: Option<String>` + `addr_validate` as the
         # first thing the handler does) is the same input as a validated `Option<Addr>` parameter
@@ -2013,7 +2031,9 @@ _STORE_OR_MSG = re.compile(r"(cw_storage_plus::\S*::(save|update|remove)$|cw2::s
 def _plain_constructor(P, f):
     """A public associated constructor of a workspace type (`Asset::new(info, amount)`, `AssetInfo::token(addr)`): no `self`
     parameter, one exit, which is an aggregate of the type itself (or one of its variants).  It is value plumbing."""
-    if f.kind != "assoc_fn" or f.impl_trait is not None or not f.impl_self or f.body is None or len(f.body.blocks) > 12:
+    # `impl From<(Uint128, Uint128, Uint128)> for SimulationResponse`: a conversion written as a constructor
+    conv = f.impl_trait is not None and re.search(r"(^|::)convert::From$", str(f.impl_trait)) is not None and f.name == "from"
+    if f.kind != "assoc_fn" or (f.impl_trait is not None and not conv) or not f.impl_self or f.body is None or len(f.body.blocks) > 12:
         return False
     if any(strip_ty(f.body.locals[i]["ty"]) == f.impl_self or re.sub(r"<.*$", "", strip_ty(f.body.locals[i]["ty"])) == f.impl_self for i in range(1, f.body.arg_count + 1)):
         return False
@@ -2043,7 +2063,7 @@ def pure_helper(P, f, depth=0):
         return _PURE_MEMO[key]
     _PURE_MEMO[key] = False
     private = not (f.j.get("vis") or "Public").startswith("Public")
-    ok = (f.body is not None and not f.derived and f.kind in ("fn", "assoc_fn") and f.impl_trait is None and
+    ok = (f.body is not None and not f.derived and f.kind in ("fn", "assoc_fn") and (f.impl_trait is None or _plain_constructor(P, f)) and
           len(f.body.blocks) <= 120 and
           f.crate in ("halo_pair", "halo_factory", "halo_router", "haloswap", "bignumber") and "::tests::" not in f.path and "mock_querier" not in f.path)
     if ok and not private:
@@ -2513,6 +2533,8 @@ def located_param(fn, ty_pat, _depth=0):
         # pieces: parameters that are, at every production call site, a known projection of the caller's own value of that type
         kind = next((n for n in _PIECES if re.search(ty_pat, "cosmwasm_std::" + n)), None)
         sites = [(c, cb) for c, cb in P.callers(fn.path) if "::tests::" not in c.path and c.body is not None and c.path != fn.path]
+        if getattr(fn, "clone_site", None):
+            sites = [fn.clone_site]          # a per-arm copy of a shared forwarder: its one call site is that arm
         if kind and 1 <= len(sites) <= 6:
             R = Roots(P)
             pieces = {}
@@ -2538,6 +2560,10 @@ def located_param(fn, ty_pat, _depth=0):
 def param_root(fn, i, path=""):
     if isinstance(i, VParam):
         return vparam_root(fn, i, path)
+    if isinstance(i, int) and fn.body is not None and i >= fn.body.arg_count and CURRENT_P[0] is not None:
+        for (i_, k_, nm_, t_) in CURRENT_P[0].bundle_layout(fn):
+            if i_ == i:
+                return param_root(fn, k_, "." + str(nm_) + path)       # a field of the parameter struct
     ov = OVERRIDDEN.get(fn.path)
     if ov is not None and i < len(ov[1]):
         rs = Roots(ov[0]).roots(ov[1][i], _parse_suffix(path))
